@@ -109,35 +109,7 @@ Definition ok_paths (c : c08_case) : bool :=
       exn_eqb e TypeError && match c_in c with ONode _ _ _ => false | _ => true end
   end.
 
-(* ---- known: guards of the two open findings -------------------------------------- *)
-(* C08-tuple-cycle: a tuple/frozenset is reached again from inside itself *)
-Fixpoint imm_backref (anc : list nat) (o : obj) : bool :=
-  match o with
-  | ORef id _ => existsb (Nat.eqb id) anc
-  | ONode id k items =>
-      existsb (Nat.eqb id) anc
-      || existsb (fun kv => imm_backref (if mutable k then anc else id :: anc) (snd kv)) items
-  | _ => false
-  end.
-
-(* C08-set-path: the reported path goes through a member of a set/frozenset *)
-Fixpoint crosses_set (defs : table obj) (cur : obj) (p : path) : bool :=
-  match p with
-  | [] => false
-  | seg :: rest =>
-      match resolve defs cur with
-      | ONode _ k items =>
-          if is_set k then true
-          else match k, seg with
-               | KList, KI i | KTuple, KI i =>
-                   match nth_error items i with Some (_, c) => crosses_set defs c rest | None => false end
-               | KDict, _ => match kd_get items seg with Some c => crosses_set defs c rest | None => false end
-               | _, _ => false
-               end
-      | _ => false
-      end
-  end.
-
+(* ---- known: guards of the two open findings (imm_backref, crosses_set: Spec) ---- *)
 Definition paths_known (c : c08_case) : bool :=
   match c_research c with
   | Ok l => forallb (fun e => let '(p, r, g) := e in
